@@ -1,11 +1,16 @@
 //! Harness binary `h_mss <PROP> --seed S --tier T [--count N] [--replay F]`.
 //! One module per property (`cNN.rs`, `pub fn run(args: &hcore::Args, out: &mut hcore::Out)`).
 
+mod c14;
+mod c15;
+
 fn main() {
     let args = hcore::Args::parse();
     hcore::quiet_panics();
     let mut out = hcore::Out::new();
     match args.prop.as_str() {
+        "C14" => c14::run(&args, &mut out),
+        "C15" => c15::run(&args, &mut out),
         p => {
             let _ = &mut out;
             eprintln!("h_mss: unknown property {p}");
